@@ -28,6 +28,8 @@ def run_shard(ctx):
     strata.double_negation_stratum(ctx, d, ctx.share(96, 4000))
     if ctx.shard == 3 % ctx.nshards:
         strata.capture_not_stratum(ctx, d)
+    if ctx.shard == 4 % ctx.nshards:
+        strata.not_memory_probes(ctx, d)
     strata.wide_instruction_stratum(ctx, d, ctx.share(96, 4000))
     strata.not_grid_stratum(ctx, d.ws)
 
